@@ -7,7 +7,8 @@ runs at a time (per-thread semaphore baton); at every scheduling point the runni
 the E1 chooser whether to continue (answer 0) or to hand the baton to another runnable worker
 (a preemption, cost 1).  When a worker finishes, the next one is chosen free of cost.  Code
 outside ``schwifty/`` (re, json, pycountry with its real lock, rstr, random) executes atomically
-inside one step.
+inside one step.  Worker threads are real ``threading.Thread`` objects kept alive across the
+executions of one harness (each execution still starts every operation from scratch).
 """
 from __future__ import annotations
 
@@ -20,145 +21,174 @@ from . import choice
 from .report import HarnessError
 
 SRC = os.path.join(str(lib.REPO), "schwifty") + os.sep
-HORIZON_FACTOR = 10
+STEP_LIMIT = 200000
 
 
-class Execution:
-    def __init__(self, ops, ch: choice.Chooser, opcode: bool, fingerprint=None, step_limit=100000):
-        self.ops = ops
-        self.ch = ch
-        self.opcode = opcode
-        self.n = len(ops)
-        self.go = [threading.Semaphore(0) for _ in ops]
-        self.done_evt = threading.Semaphore(0)
-        self.finished = [False] * self.n
-        self.started = [False] * self.n
-        self.results = [None] * self.n
-        self.steps = [0] * self.n
+class State:
+    """What one execution recorded."""
+
+    def __init__(self, n):
+        self.finished = [False] * n
+        self.results = [None] * n
+        self.steps = [0] * n
         self.total_steps = 0
-        self.step_limit = step_limit
         self.preemptions = 0
         self.switch_log: list = []
-        self.fingerprint = fingerprint
         self.fingerprints: set = set()
         self.error = None
-        self.running = None
+
+
+class Runner:
+    def __init__(self, n: int, opcode: bool = False, fingerprint=None):
+        self.n = n
+        self.opcode = opcode
+        self.fingerprint = fingerprint
+        self.go = [threading.Semaphore(0) for _ in range(n)]
+        self.done_evt = threading.Semaphore(0)
+        self.stop = False
+        self.ops = None
+        self.ch = None
+        self.st = None
+        self.broken = False
+        self.threads = [threading.Thread(target=self._loop, args=(i,), daemon=True) for i in range(n)]
+        for t in self.threads:
+            t.start()
 
     # ---- tracing -------------------------------------------------------------------------
-    def _global_trace(self, tid):
+    def _tracer(self, tid):
         def local(frame, event, arg):
             if event == "line" or event == "opcode":
                 self._point(tid, frame)
             return local
 
+        opcode = self.opcode
+
         def glob(frame, event, arg):
             if event == "call" and frame.f_code.co_filename.startswith(SRC):
-                if self.opcode:
+                if opcode:
                     frame.f_trace_opcodes = True
                 return local
             return None
         return glob
 
-    def _runnable(self):
-        return [i for i in range(self.n) if not self.finished[i]]
-
     def _point(self, tid, frame):
-        if self.error is not None:
+        st = self.st
+        if st.error is not None:
             return
-        self.steps[tid] += 1
-        self.total_steps += 1
-        if self.total_steps > self.step_limit:
-            self.error = f"horizon exceeded ({self.step_limit} steps): livelock?"
+        st.steps[tid] += 1
+        st.total_steps += 1
+        if st.total_steps > STEP_LIMIT:
+            st.error = f"horizon exceeded ({STEP_LIMIT} steps): livelock?"
             return
-        others = [i for i in self._runnable() if i != tid]
+        fin = st.finished
+        others = [i for i in range(self.n) if i != tid and not fin[i]]
         if not others:
             return
-        label = f"t{tid}@{os.path.basename(frame.f_code.co_filename)}:{frame.f_lineno}" + (
-            f"+{frame.f_lasti}" if self.opcode else "")
-        c = self.ch.choose(label, 1 + len(others))
+        code = frame.f_code
+        label = (tid, code.co_name, frame.f_lineno, frame.f_lasti) if self.opcode else (
+            tid, code.co_name, frame.f_lineno)
+        try:
+            c = self.ch.choose(label, 1 + len(others))
+        except BaseException as e:  # noqa: BLE001
+            st.error = repr(e)
+            return
         if c:
-            self.preemptions += 1
-            self._handoff(tid, others[c - 1], label)
-
-    def _handoff(self, me, to, label):
-        if self.fingerprint is not None:
-            self.fingerprints.add(self.fingerprint())
-        self.switch_log.append((me, self.steps[me], to))
-        self.running = to
-        self.go[to].release()
-        self.go[me].acquire()
+            st.preemptions += 1
+            to = others[c - 1]
+            if self.fingerprint is not None:
+                st.fingerprints.add(self.fingerprint())
+            st.switch_log.append((tid, st.steps[tid], to))
+            self.go[to].release()
+            self.go[tid].acquire()
 
     # ---- workers -------------------------------------------------------------------------
-    def _worker(self, tid):
-        self.go[tid].acquire()
-        self.started[tid] = True
-        sys.settrace(self._global_trace(tid))
-        try:
-            self.results[tid] = self.ops[tid]()
-        except BaseException as e:  # noqa: BLE001
-            self.results[tid] = ("harness-escape", repr(e))
-            if isinstance(e, (choice.ReplayDivergence, HarnessError)):
-                self.error = repr(e)
-        finally:
-            sys.settrace(None)
-        self.finished[tid] = True
-        rest = self._runnable()
-        if rest and self.error is None:
+    def _loop(self, tid):
+        while True:
+            self.go[tid].acquire()
+            if self.stop:
+                return
+            st = self.st
+            tracer = self._tracer(tid)
+            sys.settrace(tracer)
             try:
-                c = self.ch.choose(f"t{tid}:finished", len(rest), free=True)
+                res = self.ops[tid]()
             except BaseException as e:  # noqa: BLE001
-                self.error = repr(e)
-                c = 0
-            self.running = rest[c]
+                res = ("harness-escape", repr(e))
+                st.error = st.error or repr(e)
+            finally:
+                sys.settrace(None)
+            st.results[tid] = res
+            st.finished[tid] = True
+            rest = [i for i in range(self.n) if not st.finished[i]]
+            if not rest:
+                self.done_evt.release()
+                continue
+            c = 0
+            if st.error is None:
+                try:
+                    c = self.ch.choose(f"t{tid}:finished", len(rest), free=True)
+                except BaseException as e:  # noqa: BLE001
+                    st.error = repr(e)
             self.go[rest[c]].release()
-        elif rest:
-            self.running = rest[0]
-            self.go[rest[0]].release()
-        else:
-            self.done_evt.release()
 
-    def run(self):
-        threads = [threading.Thread(target=self._worker, args=(i,), daemon=True) for i in range(self.n)]
-        for t in threads:
-            t.start()
-        first = self.ch.choose("start", self.n, free=True)
-        self.running = first
+    def run(self, ops, ch: choice.Chooser):
+        if self.broken:
+            raise HarnessError("runner is broken")
+        self.ops, self.ch, self.st = ops, ch, State(self.n)
+        first = ch.choose("start", self.n, free=True)
         self.go[first].release()
-        if not self.done_evt.acquire(timeout=60):
-            raise HarnessError(f"deadlock or hang: finished={self.finished} running={self.running}")
-        for t in threads:
-            t.join(timeout=10)
-        if self.error:
-            raise HarnessError(self.error)
-        return self.results
+        if not self.done_evt.acquire(timeout=120):
+            self.broken = True
+            raise HarnessError(f"deadlock or hang: finished={self.st.finished}")
+        if self.st.error:
+            self.broken = True
+            raise HarnessError(self.st.error)
+        return self.st
+
+    def close(self):
+        self.stop = True
+        for g in self.go:
+            g.release()
 
 
 def run_once(ops, answers=(), labels=None, opcode=False, fingerprint=None):
-    ch = choice.Chooser(answers, labels)
-    ex = Execution(ops, ch, opcode, fingerprint)
-    res = ex.run()
-    return ch, ex, res
+    r = Runner(len(ops), opcode, fingerprint)
+    try:
+        ch = choice.Chooser(answers, labels)
+        st = r.run(ops, ch)
+        return ch, st, st.results
+    finally:
+        r.close()
 
 
-def explore(make_ops, bound: int, opcode: bool = False, fingerprint=None, max_runs=None):
-    """Yield (chooser, execution, results) for every schedule with <= ``bound`` preemptions.
+def explore(make_ops, n: int, bound: int, opcode: bool = False, fingerprint=None, max_runs=None):
+    """Yield (chooser, state, results) for every schedule with <= ``bound`` preemptions.
     ``make_ops()`` must build fresh operation closures for each execution."""
-    def run(ch):
-        ex = Execution(make_ops(), ch, opcode, fingerprint)
-        res = ex.run()
-        return ex, res
+    r = Runner(n, opcode, fingerprint)
 
-    for ch, (ex, res) in choice.explore(run, bound, max_runs=max_runs, check_labels=True):
-        yield ch, ex, res
+    def run(ch):
+        st = r.run(make_ops(), ch)
+        return st
+
+    try:
+        run(choice.Chooser())  # warm-up of these worker threads (see warm_up), result discarded
+        for ch, st in choice.explore(run, bound, max_runs=max_runs, check_labels=True):
+            yield ch, st, st.results
+    finally:
+        r.close()
 
 
 def warm_up(ops, opcode=False):
     """Run each op alone under tracing (CPython 3.12 delivers opcode events only after one traced
     call); returns solo results and step counts."""
     out, steps = [], []
-    for op in ops:
-        ch, ex, res = run_once([op], opcode=opcode)
-        ch, ex, res = run_once([op], opcode=opcode)
-        out.append(res[0])
-        steps.append(ex.steps[0])
+    r = Runner(1, opcode)
+    try:
+        for op in ops:
+            r.run([op], choice.Chooser())
+            st = r.run([op], choice.Chooser())
+            out.append(st.results[0])
+            steps.append(st.steps[0])
+    finally:
+        r.close()
     return out, steps
